@@ -29,7 +29,7 @@ ASSUMPTIONS = [
     "judged as parse / include failures",
 ]
 REQUIRED = ["judged:setattr", "judged:setitem", "judged:ctor", "judged:assign_sub", "judged:listop", "judged:dictop",
-            "judged:slistop", "judged:bad_doc", "judged:bad_include", "judged:set_readonly"]
+            "judged:slistop", "judged:bad_doc", "judged:bad_include", "judged:set_readonly", "dynamic-key-before-failed-load"]
 LEVEL_TEXT = (
     "Generated states x generated failing operations with a full deep before/after snapshot (values, defined "
     "marks, identities); shows the property on the explored pairs and kills mutants that store or clear marks "
@@ -271,6 +271,15 @@ def run_case(case, R):
             name = op["op"]
             cfg = state["cfg"]
             ops.prepare(world, state, op)
+            if name in ("bad_doc", "bad_include"):
+                # a configuration of a dynamic schema holds keys of its own (not in the schema) when the load fails
+                for dpath, dnode in [((), spec)] + ops.spec_containers(spec):
+                    if dnode.get("dynamic"):
+                        try:
+                            setattr(worlds.get_path(cfg, dpath), "zzdyn", "kept")
+                            R.label("dynamic-key-before-failed-load")
+                        except Exception:
+                            pass
             before = worlds.snapshot(cfg, cc, with_ids=True)
             before_plain = worlds.snapshot(cfg, cc)
             fresh_before = _mask(worlds.snapshot(world.schema(key_filename=keyfile), cc)) if name == "ctor" else None
